@@ -98,6 +98,25 @@ fn gen_code(rng: &mut Rng, rom: bool, n: usize) -> Vec<u8> {
                     code.extend([0x3e, val, 0xea, reg as u8, (reg >> 8) as u8]);
                 }
             }
+            3 => {
+                // the same control store twice in a row, inside one block (and once more with the absolute form)
+                let v = rng.pick(&[0x81u8, 0x80, 0xff, 0x01]);
+                code.extend([0x3e, v, 0xe0, 0x02, 0xe0, 0x02]);
+                if rng.chance(1, 2) {
+                    code.extend([0xea, 0x02, 0xff, 0xea, 0x02, 0xff]);
+                }
+            }
+            4 if rom => {
+                // an interrupt dispatch with the stack at the top of the address space: the pushed PC bytes land on IE (and may
+                // cancel the dispatch, which then continues at 0x0000); every vector restores SP and returns through HL
+                let mask = rng.pick(&[0x01u8, 0x04, 0x08, 0x1f, 0x10]);
+                let sp = rng.pick(&[0x0000u16, 0x0001, 0xdff0]);
+                let resume = CODE_AT as usize + code.len() + 3 + 3 + 4 + 4 + 2;
+                code.extend([0x21, resume as u8, (resume >> 8) as u8, 0x31, sp as u8, (sp >> 8) as u8]);
+                code.extend([0x3e, mask, 0xe0, 0xff, 0x3e, mask, 0xe0, 0x0f, 0xfb, 0x00]);
+                // resume: DI; IE = IF = 0
+                code.extend([0xf3, 0xaf, 0xe0, 0xff, 0xe0, 0x0f]);
+            }
             0 => code.extend([0x18, 0x00]), // block boundary
             1 => code.extend(crate::sm83::safe_instruction(rng)),
             2 => code.extend([0x21, 0x00, 0xc1]),
@@ -169,6 +188,10 @@ impl Scenario for SerialStdout {
         // CALL target / RST 28 vector: restore SP, continue at HL
         case.blobs.insert(patch_key(CALL_TARGET as usize), vec![0x31, 0xf0, 0xdf, 0xe9]);
         case.blobs.insert(patch_key(0x28), vec![0x31, 0xf0, 0xdf, 0xe9]);
+        // interrupt vectors and 0x0000 (where a cancelled dispatch continues): the same
+        for v in [0x00usize, 0x40, 0x48, 0x50, 0x58, 0x60] {
+            case.blobs.insert(patch_key(v), vec![0x31, 0xf0, 0xdf, 0xe9]);
+        }
         // entry: JP CODE_AT (the header's entry point jumps to 0x0150)
         case.blobs.insert(patch_key(0x150), vec![0x31, 0xf0, 0xdf, 0xc3, CODE_AT as u8, (CODE_AT >> 8) as u8]);
         if small_arena {
@@ -222,6 +245,7 @@ impl Scenario for SerialStdout {
         }
         let _ = crate::capture::take();
         let names = ["jit", "non-jit"];
+        let mut modes_in_step = true;
         'ops: for (opi, op) in case.ops.iter().enumerate() {
             match op.k {
                 "f" => {
@@ -232,6 +256,8 @@ impl Scenario for SerialStdout {
                 }
                 "s" => {
                     for _ in 0..op.arg(0).clamp(0, 5000) {
+                        // what each build emitted in this step, and where the step started
+                        let mut step_out: [(u32, Vec<u8>); 2] = [(0, Vec::new()), (0, Vec::new())];
                         for (i, m) in reps.iter_mut().enumerate() {
                             let pc = m.regs().ip;
                             if i == 0 && arena > 0 {
@@ -267,9 +293,20 @@ impl Scenario for SerialStdout {
                                 break 'ops;
                             }
                             emitted += want.len() as u64;
+                            step_out[i] = (pc, got);
                             if m.cache_space() < 0x1000 && i == 0 {
                                 ctx.cov.hit("probe.steps_with_arena_below_low_space_threshold");
                             }
+                        }
+                        // "in both execution modes": the same step of the same program emits the same bytes whether it ran as
+                        // translated code or in the interpreter (a store the translator drops leaves no bus write to fold)
+                        if modes_in_step && step_out[0].0 == step_out[1].0 {
+                            if step_out[0].1 != step_out[1].1 {
+                                out.push(Violation::new("C18", "C18/modes-differ".to_string(), format!("op {} (step at pc {:#06x}, {}): the jit build emitted {:02x?}, the non-jit build {:02x?}", opi, step_out[0].0, if block { "block step" } else { "instruction step" }, &step_out[0].1[..step_out[0].1.len().min(48)], &step_out[1].1[..step_out[1].1.len().min(48)])));
+                                break 'ops;
+                            }
+                        } else {
+                            modes_in_step = false; // the two builds are no longer at the same place (C04's subject)
                         }
                     }
                 }
